@@ -109,9 +109,8 @@ Section Steps.
     skip_comment input (mkst pre (ws ++ c :: t)) = mkst (pre ++ ws) (c :: t).
   Proof.
     intros Hin F NC N47. unfold skip_comment. rewrite skip_space_ws by assumption.
-    cbn [negb data mkst]. destruct (Z.eq_dec c 47) as [E|_]; [contradiction|].
-    destruct c as [|p|p]; try reflexivity.
-    do 6 (destruct p as [p|p|]; try reflexivity); contradiction N47; reflexivity.
+    cbn [negb data mkst]. destruct t as [|b t']; [reflexivity|].
+    replace (c =? 47) with false by lia. reflexivity.
   Qed.
 
   (** ---------- numbers ---------- *)
